@@ -495,6 +495,40 @@ func (c *VCtx) execInstr(fr *Frame, st *State, in ssa.Instruction, incoming map[
 				}
 			}
 		}
+		if ct := c.eng.ContractOf(fv.Fn); ct != nil {
+			// "bind v = G": the value captured for v is closure G created over the very same variables
+			for v, key := range ct.Binds {
+				okBind := false
+				for j, f := range fv.Fn.FreeVars {
+					if f.Name() != v || j >= len(fv.Binds) {
+						continue
+					}
+					bv := fv.Binds[j]
+					if l, isCell := bv.(*Loc); isCell && l.Kind == "cell" && l.Base != nil && st.cells != nil {
+						// captured by reference: the variable must hold the closure now and never be reassigned
+						if w, ok := x.Bindings[j].(*ssa.Alloc); ok && storesTo(w) == 1 {
+							bv = st.cells[l.Base.S]
+						}
+					}
+					gv, isFn := bv.(*FnVal)
+					if !isFn || gv.Fn == nil || bareName(FuncKey(gv.Fn)) != bareName(key) {
+						break
+					}
+					okBind = true
+					for gi, gf := range gv.Fn.FreeVars {
+						// variables both closures capture must be the very same variables
+						for j2, f2 := range fv.Fn.FreeVars {
+							if f2.Name() == gf.Name() && !(j2 < len(fv.Binds) && gi < len(gv.Binds) && sameVal(fv.Binds[j2], gv.Binds[gi])) {
+								okBind = false
+							}
+						}
+					}
+				}
+				if !okBind {
+					unsup("bind %s = %s of %s cannot be established where the closure is created", v, key, FuncKey(fv.Fn))
+				}
+			}
+		}
 		if ct := c.eng.ContractOf(fv.Fn); ct != nil && len(ct.ClosureInv) > 0 {
 			// facts about the captured variables that must hold whenever the closure runs: proved at creation
 			sc := c.contractScope(fv.Fn, ct, fv, nil, st, st, nil)
@@ -1383,4 +1417,33 @@ func (c *VCtx) zeroArray(es Sort, z *Term) *Term {
 		c.facts0(T(SBool, fmt.Sprintf("(forall ((i Int)) (! (= (select %s i) %s) :pattern ((select %s i))))", a.S, z.S, a.S)))
 	}
 	return a
+}
+
+
+// storesTo counts the store instructions that write the variable cell a (in its function and in closures
+// that capture it).
+func storesTo(a *ssa.Alloc) int {
+	n := 0
+	var visit func(v ssa.Value)
+	visit = func(v ssa.Value) {
+		if v.Referrers() == nil {
+			return
+		}
+		for _, r := range *v.Referrers() {
+			switch x := r.(type) {
+			case *ssa.Store:
+				if x.Addr == v {
+					n++
+				}
+			case *ssa.MakeClosure:
+				for j, b := range x.Bindings {
+					if b == v {
+						visit(x.Fn.(*ssa.Function).FreeVars[j])
+					}
+				}
+			}
+		}
+	}
+	visit(a)
+	return n
 }
